@@ -11,6 +11,7 @@ import fcntl
 import json
 import os
 import re
+import shutil
 import subprocess
 import sys
 import time
@@ -163,7 +164,19 @@ def build_harness(race=False):
     binp = os.path.join(WORK, "harness-race" if race else "harness")
     if os.path.exists(binp):
         os.remove(binp)
-    cmd = ["go", "build"] + (["-race"] if race else []) + ["-tags", "verif", "-o", binp, "."]
+    modflag = []
+    if os.path.abspath(REPO) != "/repo":
+        # a tree elsewhere (VERIF_REPO, used by tools/ for seeded changes in a scratch copy): the same go.mod with
+        # its replace directive pointing there
+        os.makedirs(WORK, exist_ok=True)
+        mod = open(os.path.join(hdir, "go.mod")).read().replace("=> /repo", "=> " + os.path.abspath(REPO))
+        open(os.path.join(WORK, "harness.mod"), "w").write(mod)
+        try:
+            shutil.copy(os.path.join(REPO, "go.sum"), os.path.join(WORK, "harness.sum"))
+        except OSError:
+            pass
+        modflag = ["-modfile=" + os.path.join(WORK, "harness.mod")]
+    cmd = ["go", "build"] + modflag + (["-race"] if race else []) + ["-tags", "verif", "-o", binp, "."]
     r = run(cmd, cwd=hdir, env=GOENV)
     return r.returncode == 0, r.stdout, binp
 
